@@ -61,7 +61,7 @@ LOW = {"mat_meiosis": putil.mat_meiosis, "dense_meiosis": cutil.dense_meiosis, "
 
 def generate(R, tier):
     r = R.random()
-    kind = "strat-low" if r < 0.45 else ("strat-prot" if r < 0.9 else ("real-map" if r < 0.96 else "real-self"))
+    kind = "strat-low" if r < 0.40 else ("strat-prot" if r < 0.78 else ("strat-chain" if r < 0.9 else ("real-map" if r < 0.96 else "real-self")))
     nchr = R.randint(1, 3)
     m = R.randint(nchr, 12)
     sc = {"kind": kind, "nchr": nchr, "m": m, "seed": R.randrange(1 << 30), "rngkind": R.choice(["Generator", "Generator", "RandomState"]),
@@ -70,6 +70,9 @@ def generate(R, tier):
         sc.update(fn=R.choice(sorted(LOW)), N=R.choice([64, 100, 250, 1000]), xosrc=R.choice(["arbitrary", "arbitrary", "map"]))
     elif kind == "strat-prot":
         sc.update(prot=R.choice(sorted(PROT)), N=R.choice([50, 64, 100, 200]), xosrc=R.choice(["arbitrary", "map"]))
+    elif kind == "strat-chain":
+        # two generations: the progeny object returned by one protocol is itself mated; its meioses must follow the same probabilities
+        sc.update(prot=R.choice(["2w", "3w", "4w"]), N=R.choice([64, 100, 200]), xosrc=R.choice(["arbitrary", "map"]))
     elif kind == "real-map":
         sc.update(fn=R.choice(["mat_meiosis", "dense_meiosis"]), N=200000, xosrc="map")
     else:
@@ -264,6 +267,32 @@ def execute(sc):
         for G in cols:
             if G.shape != (N, len(xo_eff)):
                 continue
+            ncmp += _check_gametes(sc, G, xo_eff, numpy.asarray(pg.vrnt_chrgrp), genpos, V, C, True, 0)
+            if V:
+                break
+    elif kind == "strat-chain":
+        cls, npar, isdh = PROT[sc["prot"]]
+        C = cls.__name__ + ".mate->SelfCross.mate"
+        pg = _parents(sc, chrgrp, phypos, genpos, xo, 4, False)
+        if pg is None:
+            return _out(sc, V, log, faults, probes, 0, g)
+        xo_eff = numpy.asarray(pg.vrnt_xoprob, dtype=float)
+        g1 = rngseam.make(sc["rngkind"], sc["rngseed"] + 1)                 # first generation: ordinary draws
+        try:
+            f1 = cls(progeny_counter=0, family_counter=0, rng=g1).mate(pg, numpy.array([[0, 1, 2, 3][:npar]]), 1, 1, nself=0)
+            prog = SelfCross(progeny_counter=0, family_counter=0, rng=g).mate(f1, numpy.array([[0]]), 1, N, nself=0)
+        except Exception as e:
+            V.append(viol("meiosis-completes", C, "raises:%s" % type(e).__name__, "%s: %s" % (type(e).__name__, e)))
+            return _out(sc, V, log, faults, probes, 0, g)
+        faults["second_generation_from_returned_progeny"] = 1
+        a0, a1 = set(numpy.asarray(f1.mat)[0, 0].tolist()), set(numpy.asarray(f1.mat)[1, 0].tolist())
+        pm = numpy.asarray(prog.mat).astype(int)
+        log.append([C, adig(prog.mat)])
+        if a0 & a1 or pm.shape[1] != N:
+            probes["chain_readout_not_applicable"] = 1
+            return _out(sc, V, log, faults, probes, 0, g)
+        for cp in (0, 1):
+            G = numpy.isin(pm[cp], sorted(a1)).astype(int)
             ncmp += _check_gametes(sc, G, xo_eff, numpy.asarray(pg.vrnt_chrgrp), genpos, V, C, True, 0)
             if V:
                 break
